@@ -78,6 +78,34 @@ CLAIMED.update({
     },
 })
 
+CLAIMED.update({
+    "C09": {
+        "text": "Escaping half of the VCF round trip decided structurally: the evaluated percent-encode sets (and the character writers' "
+                "matches! patterns) contain the VCF §1.2 reserved bytes and every delimiter constant the column's readers split on; "
+                "a column encoded on write is decoded in every read view (eager, lazy, array iterators: callers of the shared decoder); "
+                "lone '.' escape present; variant span has one provided implementation. Value equality over the grammar is not decided.",
+        "note": "trusts the percent-encoding crate; delimiter harvest is by named constants with a floor",
+        "technique": "static analysis: evaluated AsciiSet constants vs spec table, HIR match-pattern sets, caller sets of encode/decode helpers, trait impl table",
+        "design_ref": "§5 C09",
+    },
+    "C11": {
+        "text": "Guards of indexed FASTA access decided on MIR: offset returned only after start was compared with the sequence length, "
+                "bounded copy min(remaining, window) in the limited sequence reader, indexer's consistency comparisons reach error exits "
+                "and records are emitted only after the last-line test, fill_buf scanners are not window-assuming. Offset arithmetic is not decided.",
+        "note": "one genuine defect found by R1 was repaired (fix: 95ab786); the `%`-operand arithmetic mutant of DESIGN §2 stays invisible",
+        "technique": "static analysis: guard dominance, data-flow of min() into extend/consume, must-pass-through (MIR)",
+        "design_ref": "§5 C11",
+    },
+    "C18": {
+        "text": "Escaping clauses decided structurally: per GFF3 column encoded-on-write iff decoded-in-every-read-view (caller sets), evaluated "
+                "attribute/seqid encode sets vs the GFF3 spec and vs reader delimiter constants, GTF escape set of the writer equals the set "
+                "the reader accepts after a backslash (match-pattern tables), values always quoted, owned record built from the lazy accessors.",
+        "note": "known finding F7 (seqid encoded, never decoded) by exact key; equality over arbitrary UTF-8 not decided",
+        "technique": "static analysis: evaluated AsciiSet constants, HIR match-pattern sets, caller sets of encode/decode helpers",
+        "design_ref": "§5 C18",
+    },
+})
+
 NOT_APPLICABLE = {
     "C08": "every clause is numeric (rANS/arith/fqzcomp state arithmetic, ITF8/LTF8 bit arithmetic): correct and off-by-one "
            "implementations have the same code shape, so no sound static rule short of a solver/proof decides it; the "
